@@ -342,6 +342,59 @@ def registry_oracle(run, before, after, reg, errors, cj, names):
         run.violate("C25/inner-signals", "inner signals are %s" % inner, cj)
 
 
+def explore_registry_readers(run, n_random):
+    """C25 with readers racing readers: two or three threads look the same freshly registered numbers up (name_for_signal) at the
+    same time, every bytecode a scheduling point; afterwards more names are registered: every name - the later ones too - is still
+    bound to its own number in both directions"""
+    rng = run.rng
+    for _ in range(n_random):
+        saved = getattr(mevent, "_registry_lock", None)
+        if saved is not None:
+            mevent._registry_lock = dsched.DRLock()
+        try:
+            reg = mevent.SignalSource()
+            first = ["R%d" % k for k in range(rng.randint(1, 3))]
+            for nm in first:
+                reg.append(nm)
+            nums = [reg[nm] for nm in first]
+            answers = []
+
+            def reader():
+                for num in nums:
+                    try:
+                        answers.append((num, reg.name_for_signal(num)))
+                    except Exception as ex:  # noqa
+                        answers.append((num, "%s: %s" % (type(ex).__name__, ex)))
+            codes = [c for c in class_codes(mevent.SignalSource) if c.co_name not in ("__init__",)]
+            seed = rng.randrange(1 << 30)
+            r2 = random.Random(seed)
+            chooser = dsched.pct_chooser(r2, depth=r2.randint(1, 3), est_len=150) if r2.random() < 0.6 else dsched.random_chooser(r2)
+            order, errors, outcome, fin = run_threads([reader] * rng.randint(2, 3), chooser, codes)
+            later = ["L%d" % k for k in range(2)]
+            for nm in later:
+                reg.append(nm)
+            bad = [(num, got) for num, got in answers if got != first[nums.index(num)]]
+            for nm in first + later:
+                try:
+                    back = reg.name_for_signal(reg[nm])
+                except Exception as ex:  # noqa
+                    back = "%s: %s" % (type(ex).__name__, ex)
+                if back != nm:
+                    bad.append((reg[nm], back))
+        finally:
+            if saved is not None:
+                mevent._registry_lock = saved
+        cj = {"what": "registry-readers", "names": first, "seed": seed, "schedule": order}
+        run.count("look-ups of the same fresh numbers racing each other (bytecode level)")
+        run.traces_validated += 1
+        if errors:
+            run.violate("C25/error", "threads looking numbers up failed: %s" % errors[:2], cj)
+        elif bad:
+            run.violate("C25/name_for_signal", "after %d threads looked up the numbers of %s at the same time and two more names were registered: "
+                        "name_for_signal(%s) = %r" % (len(fin), first, bad[0][0], bad[0][1]), cj)
+        run.case(cj, nontrivial=True)
+
+
 def explore_registry(run, n_random):
     rng = run.rng
     done = []
@@ -661,7 +714,7 @@ def make_tsa_class(by_value=False, shape=None):
     return Obj
 
 
-KIND = {"read": 0, "assign": 1, "aug": 2, "aug2": 2, "misread": 3, "classread": 0, "hasattr": 0}   # a look-up through the class is a read
+KIND = {"read": 0, "assign": 1, "aug": 2, "aug2": 2, "augh": 2, "misread": 3, "classread": 0, "hasattr": 0}   # a look-up through the class is a read
 
 
 def tsa_run(progs, chooser, opcode=False):
@@ -693,6 +746,9 @@ def _tsa_run(progs, chooser, opcode=False):
                     tsa_stmts.do_assign(o, arg)
                 elif kind == "aug":
                     tsa_stmts.do_aug(o, arg)
+                elif kind == "augh":
+                    # the object reached through a mapping whose key holds a `#` (a hashtag, a CSS id): `holder['#tag'].x += d`
+                    (tsa_stmts.do_aug_hashkey if arg % 2 else tsa_stmts.do_aug_hashkey2)({"#tag": o, "#id": o}, arg)
                 elif kind == "aug2":
                     tsa_stmts.do_aug_two_lines(o, arg)       # the same statement continued on a second physical line
                 else:
@@ -723,7 +779,7 @@ def serial_results(progs, v0=0):
         for i in range(len(progs)):
             if pos[i] < len(progs[i]):
                 kind, arg = progs[i][pos[i]]
-                nv = arg if kind == "assign" else (v + arg if kind in ("aug", "aug2") else v)
+                nv = arg if kind == "assign" else (v + arg if kind in ("aug", "aug2", "augh") else v)
                 pos[i] += 1
                 rec(pos, nv)
                 pos[i] -= 1
@@ -746,7 +802,7 @@ def gen_tsa_progs(rng, allow_misread=False):
                 p.append(("assign", rng.randint(1, 9)))
             elif r < 0.95 or not allow_misread:
                 # (0: an update whose result is the very object already stored)
-                p.append(("aug" if rng.random() < 0.8 else "aug2", rng.choice([0, 0, 1, 2, 3, 4, 5])))
+                p.append((rng.choice(["aug", "aug", "aug", "aug2", "augh"]), rng.choice([0, 0, 1, 2, 3, 4, 5])))
             else:
                 p.append(("misread", 0))
         progs.append(p)
